@@ -35,8 +35,8 @@ def wOps : List Op := [.delete 0, .put 0 true, .untrash 0, .delete 0]
 
 theorem C04_history_protects_full_fails : ¬ C04_history_protects_Full := by
   intro hF
-  have hg : (runG wCfg wSt emptyGhost wOps).2 0 = some 100 := by decide
-  have hh := (hF wCfg wSt wOps 0 100 hg).2 (by decide)
+  have hg : (runG wCfg wSt emptyGhost wOps).2 0 = some (100, true) := by decide
+  have hh := (hF wCfg wSt wOps 0 100 true hg).2 (by decide)
   obtain ⟨v, hv, f, hf, _⟩ := hh
   have hm : (runG wCfg wSt emptyGhost wOps).1.vols.map (fun v => v.blocks 0) = [none] := by decide
   have := List.mem_map_of_mem (f := fun v => v.blocks 0) hv
@@ -49,7 +49,7 @@ contents and ages, any TTL / lifetime / BlobTrash setting, any interleaving of P
 DELETE, trash-list items (any mtime, any mount), untrash, empty-trash sweeps and clock ticks. -/
 theorem C04_history_protects_partial (c : Cfg) (s : St) (ops : List Op) (hsafe : SafeOps c s ops) :
     Prot c (runG c s emptyGhost ops).1 (runG c s emptyGhost ops).2 :=
-  prot_run ops s emptyGhost (fun _ _ hg => by cases hg) hsafe
+  prot_run ops s emptyGhost (fun _ _ _ hg => by cases hg) hsafe
 
 /-- in particular: histories without untrash -/
 def NoUntrash : List Op → Prop
@@ -71,12 +71,21 @@ theorem C04_history_protects_no_untrash (c : Cfg) (s : St) (ops : List Op) (hn :
     Prot c (runG c s emptyGhost ops).1 (runG c s emptyGhost ops).2 :=
   C04_history_protects_partial c s ops (safeOps_of_noUntrash c ops s hn)
 
-/-- the conclusion unfolded for one hash, as the property states it -/
+/-- the conclusion unfolded for one hash, as the property states it (`p` = acknowledged by a PUT) -/
 theorem C04_acknowledged_block_survives (c : Cfg) (s : St) (ops : List Op) (hsafe : SafeOps c s ops)
-    (h : Hash) (t : Time) (hack : (runG c s emptyGhost ops).2 h = some t)
+    (h : Hash) (t : Time) (p : Bool) (hack : (runG c s emptyGhost ops).2 h = some (t, p))
     (hlt : (runG c s emptyGhost ops).1.now < t + c.ttl) :
-    ∃ v ∈ (runG c s emptyGhost ops).1.vols, ∃ f, v.blocks h = some f ∧ t ≤ f.mtime :=
-  (C04_history_protects_partial c s ops hsafe h t hack).2 hlt
+    ∃ v ∈ (runG c s emptyGhost ops).1.vols, ∃ f, v.blocks h = some f ∧ t ≤ f.mtime ∧ (p = true → f.good = true) :=
+  (C04_history_protects_partial c s ops hsafe h t p hack).2 hlt
+
+/-- ... and a block whose PUT was acknowledged at t is served (GET 200) at every moment before t + TTL -/
+theorem C04_acknowledged_put_is_readable (c : Cfg) (s : St) (ops : List Op) (hsafe : SafeOps c s ops)
+    (h : Hash) (t : Time) (hack : (runG c s emptyGhost ops).2 h = some (t, true))
+    (hlt : (runG c s emptyGhost ops).1.now < t + c.ttl) :
+    (step c (runG c s emptyGhost ops).1 (.get h)).2 = .code 200 := by
+  obtain ⟨v, hv, f, hf, _, hg⟩ := C04_acknowledged_block_survives c s ops hsafe h t true hack hlt
+  simp only [step]
+  rw [getStatus_200 _ _ ⟨v, hv, f, hf, hg rfl⟩]
 
 /-! non-vacuity: a history with trash, untrash (onto an empty slot), PUT and DELETE satisfies the
 hypothesis, acknowledges h0 at time 100 and the conclusion is about a non-empty server -/
@@ -85,7 +94,7 @@ def okOps : List Op := [.delete 0, .untrash 0, .put 0 true, .tick 3, .delete 0, 
 example : SafeOps wCfg wSt okOps := by
   simp only [okOps, SafeOps, SafeOp, and_true, true_and]
   decide
-example : (runG wCfg wSt emptyGhost okOps).2 0 = some 100 := by decide
+example : (runG wCfg wSt emptyGhost okOps).2 0 = some (100, true) := by decide
 example : (runG wCfg wSt emptyGhost okOps).1.now = 103 := by decide
 example : (run wCfg wSt okOps).2 = [.deleted 1 0, .code 200, .code 200, .quiet, .deleted 1 0, .quiet, .code 200] := by decide
 
@@ -253,6 +262,15 @@ theorem C04_race_overwrite_young (c : Race.Cfg) (sched : List Bool) (h : c.ageOl
   have hr : Race.riskyCfg c = false := by simp [Race.riskyCfg, h]
   exact ackSafe_prop (Race.run_ackSafe c hr sched)
 
+/-- With the protocol of /verif/fixes/F4.patch (WriteBlock opens the file it is about to replace and
+takes its flock before the rename; `Cfg.patched`) the full statement holds for every configuration and
+every schedule: the proposed patch closes F4 in the model, and introduces no deadlock
+(`C04_race_no_deadlock` covers patched configurations too). -/
+theorem C04_race_overwrite_patched (c : Race.Cfg) (sched : List Bool) (h : c.patched = true) :
+    Acked (Race.run sched (Race.init c)) → Protected (Race.run sched (Race.init c)) := by
+  have hr : Race.riskyCfg c = false := by simp [Race.riskyCfg, h]
+  exact ackSafe_prop (Race.run_ackSafe c hr sched)
+
 /-- no deadlock: after any schedule, 30 fair rounds finish both requests -/
 theorem C04_race_no_deadlock (c : Race.Cfg) (sched : List Bool) :
     Race.finished (Race.run Race.drain (Race.run sched (Race.init c))) = true :=
@@ -273,6 +291,10 @@ example : Acked (Race.run (List.replicate 4 true ++ Race.drain) (Race.init { gCf
 example : Acked (Race.run (f4Sched ++ Race.drain) (Race.init { f4Cfg with serialize := true })) :=
   Or.inr (by decide +kernel)
 example : (Race.run (f4Sched ++ Race.drain) (Race.init { f4Cfg with serialize := true })).resT = .trashed := by
+  decide +kernel
+example : Acked (Race.run (f4Sched ++ Race.drain) (Race.init { f4Cfg with patched := true })) :=
+  Or.inr (by decide +kernel)
+example : (Race.run (f4Sched ++ Race.drain) (Race.init { f4Cfg with patched := true })).resT = .trashed := by
   decide +kernel
 
 end ArvVerif.C04
